@@ -12,7 +12,7 @@ PROP = "C09"
 LEVEL = "exploration"
 RULE = ("operation sequences over {NMT command cs in {1,2,128,129,130,0,3,127,255} x target in {own, 0, other}, CONmtSetMode x4, CONmtReset x2, "
         "CONodeStart, CONodeStop}: complete enumeration to the depth bound plus random longer sequences; after EVERY operation nine probes fire "
-        "(SDO read, RPDO, SYNC, heartbeat of a monitored node, LSS inquiry, foreign identifier, EMCY set/clear, TPDO trigger, heartbeat "
+        "(SDO read, RPDO, SYNC incl. a synchronous RPDO received before the operation, heartbeat of a monitored node, LSS inquiry, foreign identifier, EMCY set/clear, TPDO trigger, heartbeat "
         "producer ticks) and frames, callbacks, CONmtGetMode and object effects are compared with the reference FSM and gating table; "
         "non-trivial = sequence with >= 1 mode change; distinct by operation sequence")
 ASSUMPTIONS = ["delivery of unclaimed frames in STOPPED and INITIALISING is not constrained (DESIGN.md A.3)",
@@ -32,7 +32,9 @@ def make_cfg(nid):
     gen.add_hbcons(cfg, [(9, 30000)])
     cfg.add(var(0x2000, 0, RW | P, 1, 0x11))
     cfg.add(var(0x2001, 0, RW | P, 1, 0x77))
+    cfg.add(var(0x2002, 0, RW | P, 1, 0x22))
     gen.add_rpdo(cfg, 0, 0x200, 254, [gen.maplink(0x2000, 0, 8)])
+    gen.add_rpdo(cfg, 1, 0x300, 1, [gen.maplink(0x2002, 0, 8)])
     gen.add_tpdo(cfg, 0, 0x40000180, 254, 0, 0, [gen.maplink(0x2001, 0, 8)])
     gen.add_tpdo(cfg, 1, 0x40000280, 1, 0, 0, [gen.maplink(0x2001, 0, 8)])
     cfg.emcy = [(0, 0x1000)]
@@ -59,6 +61,8 @@ class Model:
         self.emcy = False
         self.hb_base = 0
         self.rpdo_val = 0x11
+        self.srpdo_val = 0x22         # object of the synchronous RPDO
+        self.srpdo_pending = None     # received in OPERATIONAL, waiting for the next SYNC
         self.hbc_state = None
         self.nprobe = 0
 
@@ -200,7 +204,17 @@ def probes(m, sim, chk, res):
     # P3 SYNC
     chk.what = "probe SYNC in mode %d" % mode
     evs = sim.rx(0x80, b"")
-    if not chk.step(evs, [(0x280 + nid, bytes([0x77]))] if mode == OP else [], (0, 0) if live else open_unclaimed, {"pdotx": 1 if mode == OP else 0}, "sync"):
+    want_upd = 0
+    if mode == OP and m.srpdo_pending is not None:
+        m.srpdo_val = m.srpdo_pending
+        m.srpdo_pending = None
+        want_upd = 1
+    if not chk.step(evs, [(0x280 + nid, bytes([0x77]))] if mode == OP else [], (0, 0) if live else open_unclaimed,
+                    {"pdotx": 1 if mode == OP else 0, "pdosync": want_upd}, "sync"):
+        return False
+    r = sim.ret("rd 2002 0 1")
+    if int(r[1], 16) != m.srpdo_val:
+        chk.fail("rpdo-sync/object", "object of the synchronous RPDO = %s, reference %x (mode %d)" % (r[1], m.srpdo_val, mode))
         return False
     # P4 heartbeat of monitored node 9
     st = 5 if m.nprobe % 2 else 127
@@ -268,8 +282,23 @@ def run_sequence(res, sim, nid, ops):
     changes = 0
     for op in ops:
         old = m.mode
+        if m.mode == OP:
+            # a synchronous RPDO received before the operation: it must take effect at the SYNC probe after the operation iff the
+            # node stayed OPERATIONAL the whole time (a command that does not change the state changes nothing)
+            v = (m.nprobe * 11 + 5) & 0xFF
+            evs = sim.rx(0x300 + nid, bytes([v]))
+            m.srpdo_pending = v
+            if S.txs(evs) or len(S.cbs(evs, "pdorx")) != 1:
+                chk.what = "synchronous RPDO before op %r" % (op,)
+                chk.fail("rpdo-sync/receive", "reception of a synchronous RPDO in OPERATIONAL: %r" % evs)
+                return False
         if not apply_op(m, sim, op, chk):
             return False
+        if m.mode != OP or old != OP:
+            if m.mode == OP:
+                m.srpdo_pending = None          # (re-)entering OPERATIONAL starts with empty buffers
+            elif m.mode == DEAD:
+                m.srpdo_pending = None
         changes += (m.mode != old)
         res.states.add((old, op[0], op[1] if len(op) > 1 else 0, m.mode))
         if not probes(m, sim, chk, res):
